@@ -110,14 +110,31 @@ def key_language(ctx, setter):
         if isinstance(n, ast.If) and isinstance(n.test, ast.UnaryOp) and isinstance(n.test.op, ast.Not) and isinstance(n.test.operand, ast.Name) \
                 and any(isinstance(x, ast.Raise) for x in n.body):
             valid_var = n.test.operand.id
+    helper_clauses = None
+    scope = lp.body
     if valid_var is None:
-        raise AnalysisError("validity flag of the key validation not found")
+        # idiom 3: the predicate is a same-module helper, ``if not _is_valid(key): raise`` -- normalised into the same
+        # (test, value) clauses: ``if T: return V`` ... local bindings ... ``return V``
+        for n in ast.walk(lp):
+            if isinstance(n, ast.If) and isinstance(n.test, ast.UnaryOp) and isinstance(n.test.op, ast.Not) \
+                    and isinstance(n.test.operand, ast.Call) and any(isinstance(x, ast.Raise) for x in n.body):
+                c = n.test.operand
+                r = ctx.db.resolve_dotted(setter.module, c.func)
+                g = r[1] if r and r[0] == "func" else None
+                if g is not None and len(c.args) == 1 and isinstance(c.args[0], ast.Name) and c.args[0].id == key \
+                        and len(g.posparams) == 1 and not c.keywords:
+                    helper_clauses = _helper_clauses(g)
+                    key = g.posparams[0]
+                    scope = [st for st in g.node.body if not (isinstance(st, ast.Expr) and isinstance(st.value, ast.Constant))]
+                    setter = g
+        if helper_clauses is None:
+            raise AnalysisError("validity flag of the key validation not found")
     assigns = {}
-    for n in ast.walk(lp):
+    for n in [x for st in scope for x in ast.walk(st)]:
         if isinstance(n, ast.Assign) and len(n.targets) == 1 and isinstance(n.targets[0], ast.Name):
             assigns.setdefault(n.targets[0].id, []).append(n)
     # idiom 1: regex
-    pats = [n for n in ast.walk(lp) if isinstance(n, ast.Call) and isinstance(n.func, ast.Attribute) and n.func.attr in ("match", "fullmatch")
+    pats = [n for st in scope for n in ast.walk(st) if isinstance(n, ast.Call) and isinstance(n.func, ast.Attribute) and n.func.attr in ("match", "fullmatch")
             and n.args and isinstance(n.args[0], ast.Name) and n.args[0].id == key]
     total = None
     details = []
@@ -127,10 +144,10 @@ def key_language(ctx, setter):
         total = d if total is None else total.union(d)
         details.append(what)
     # walk the if/elif chain that assigns valid_var
-    chain = [n for n in lp.body if isinstance(n, ast.If) and any(isinstance(x, ast.Assign) and isinstance(x.targets[0], ast.Name)
-                                                                  and x.targets[0].id == valid_var for x in ast.walk(n))]
+    chain = [n for n in scope if isinstance(n, ast.If) and any(isinstance(x, ast.Assign) and isinstance(x.targets[0], ast.Name)
+                                                                and x.targets[0].id == valid_var for x in ast.walk(n))]
     sep = None
-    for n in lp.body:
+    for n in scope:
         if isinstance(n, ast.Assign) and isinstance(n.targets[0], ast.Name) and isinstance(n.value, ast.Call) and unparse(n.value.func) == "max":
             finds = [a for a in n.value.args if isinstance(a, ast.Call) and isinstance(a.func, ast.Attribute) and a.func.attr == "find"
                      and isinstance(a.func.value, ast.Name) and a.func.value.id == key and a.args and isinstance(a.args[0], ast.Constant)]
@@ -153,7 +170,7 @@ def key_language(ctx, setter):
             add(d, "pattern %r" % pat.pattern)
         add(RL.lit("?"), "'?'")
         return total, details, key
-    if not chain or sep is None:
+    if (not chain and helper_clauses is None) or sep is None:
         raise AnalysisError("key validation idiom not recognised (neither separator-position nor regex form)")
     jvar, seps = sep
     sepset = frozenset(seps)
@@ -220,8 +237,31 @@ def key_language(ctx, setter):
             add(RL.cat(RL.finite(head), sepl, tl), "element sign suffix")
             return
         raise AnalysisError("unrecognised branch of the key validation: %s" % (tsrc,))
-    walk_chain(chain[0])
+    if helper_clauses is not None:
+        for test, value, env in helper_clauses:
+            handle(test, value, env)
+    else:
+        walk_chain(chain[0])
     return total, details, key
+
+
+def _helper_clauses(g):
+    """[(test | None, returned expression, local bindings)] of a predicate helper made of ``if T: return V`` statements,
+    single-name bindings and a final ``return V``; anything else is not modelled."""
+    out, env = [], {}
+    body = [st for st in g.node.body if not (isinstance(st, ast.Expr) and isinstance(st.value, ast.Constant))]
+    for i, st in enumerate(body):
+        if isinstance(st, ast.Assign) and len(st.targets) == 1 and isinstance(st.targets[0], ast.Name):
+            env[st.targets[0].id] = st.value
+        elif isinstance(st, ast.If) and not st.orelse and len(st.body) == 1 and isinstance(st.body[0], ast.Return) and st.body[0].value is not None:
+            out.append((st.test, st.body[0].value, dict(env)))
+        elif isinstance(st, ast.Return) and st.value is not None and i == len(body) - 1:
+            out.append((None, st.value, dict(env)))
+        else:
+            raise AnalysisError("key validation helper %s has a statement form that is not modelled: %s" % (g.qual, unparse(st)[:60]))
+    if not out or out[-1][0] is not None:
+        raise AnalysisError("key validation helper %s does not end in a return" % g.qual)
+    return out
 
 
 def _fold_set(ctx, f, node):
@@ -279,6 +319,25 @@ def run(ctx, rep):
                 bonds = ast.literal_eval(n.value)
             except Exception:
                 pass
+    if not isinstance(bonds, dict):
+        # a module-level constant dict (never written anywhere in its module), folded from its initialiser
+        for n in own_nodes(getter.node):
+            if isinstance(n, ast.Call) and isinstance(n.func, ast.Attribute) and n.func.attr == "items" and isinstance(n.func.value, ast.Name):
+                nm = n.func.value.id
+                if (getter.module.name, nm) in table_vars or nm not in getter.module.assigned:
+                    continue
+                written = len(getter.module.assigned[nm]) != 1
+                for x in ast.walk(getter.module.tree):
+                    if isinstance(x, (ast.Subscript, ast.Attribute)) and isinstance(x.value, ast.Name) and x.value.id == nm:
+                        if isinstance(x, ast.Subscript) and isinstance(x.ctx, (ast.Store, ast.Del)):
+                            written = True
+                        if isinstance(x, ast.Attribute) and x.attr in ("update", "pop", "clear", "setdefault", "popitem", "__setitem__"):
+                            written = True
+                    if isinstance(x, ast.Global) and nm in x.names:
+                        written = True
+                v = ctx.fold.global_value(getter.module.name, nm)
+                if isinstance(v, dict) and not written:
+                    bonds = dict(v)
     if not isinstance(bonds, dict):
         raise AnalysisError("bond-prefix table of the alphabet builder not found")
     ok = bonds == {k: v for k, v in SPEC.BOND_ORDER.items()}
